@@ -297,6 +297,15 @@ def finish(prop, tier, seed, acc, rule, bounds, assumptions, t0, extra_cov=None,
     os.replace(tmp, os.path.join(VERIF, 'evidence', prop + '.json'))
     for ln in lines:
         print(ln)
+    if unlisted:
+        # diagnosis aid: which tag values do the unlisted violation records have in common
+        allv = [v for vs in unlisted.values() for v in vs]
+        dist = {}
+        for v in allv:
+            for k, x in (v.get('tags') or {}).items():
+                dist.setdefault(k, {}).setdefault(json.dumps(x), 0)
+                dist[k][json.dumps(x)] += 1
+        print('TAG-SUMMARY (%d unlisted records kept): %s' % (len(allv), json.dumps(dist, sort_keys=True)))
     print('%s tier=%s seed=%d states=%d transitions=%d validated=%d nontrivial=%d outcomes=%d refused=%d known=%d unlisted_classes=%d wall=%.1fs' % (
         prop, tier, seed, acc.states, acc.transitions, acc.validated, acc.nontrivial, len(acc.outcomes), acc.refused,
         sum(v[1] for v in matched.values()), nclass, time.time() - t0))
